@@ -97,6 +97,8 @@ theorem invF_uBody {cfg : Cfg} {s : St} {p} (hE : InvE s) (h : InvF s) : InvF (u
         unfold callUndeploy
         refine ⟨?_, ?_, ?_, ?_, ?_, ?_, ?_, ?_⟩ <;> sg
       · split <;> (refine ⟨?_, ?_, ?_, ?_, ?_, ?_, ?_, ?_⟩ <;> sg)
+  · refine invF_setPc ?_
+    refine ⟨?_, ?_, ?_, ?_, ?_, ?_, ?_, ?_⟩ <;> sg
   · exact invF_setPc h'
 
 theorem invF_useStart {s : St} {p} (hE : InvE s) (h : InvF s) : InvF (useStart s p) := by
@@ -170,9 +172,13 @@ theorem invF_step {cfg : Cfg} {s a s'} (hE : InvE s) (h : InvF s) (hs : step cfg
     simp only [step] at hs
     split at hs
     · split at hs
-      · cases hs
-        refine invF_setPc (invF_setEvent ?_)
-        refine ⟨?_, ?_, ?_, ?_, ?_, ?_, ?_, ?_⟩ <;> sg
+      · split at hs
+        · cases hs
+          refine invF_setPc ?_
+          refine ⟨?_, ?_, ?_, ?_, ?_, ?_, ?_, ?_⟩ <;> sg
+        · cases hs
+          refine invF_setPc (invF_setEvent ?_)
+          refine ⟨?_, ?_, ?_, ?_, ?_, ?_, ?_, ?_⟩ <;> sg
       · cases hs
     · rename_i f o hpc
       have hp := h13 p f o hpc
